@@ -80,6 +80,7 @@ func newConn(netCon net.Conn) *conn {
 // it returns nil immediately. Otherwise, it marks the connection as closed
 // and terminates it, returning any error encountered during termination.
 func (c *conn) Close() error {
+	vp("cl.close", c)
 	if c.closed.Swap(true) {
 		// Server is already closed. Nothing to do
 		return nil
@@ -94,10 +95,13 @@ func (c *conn) Close() error {
 // It accepts an error parameter to provide context for the cancellation.
 // Returns any error encountered while closing the stream.
 func (c *conn) terminate(err error) error {
+	vp("term.cancel", c)
 	c.cancel(err) // Cancel the server context
+	vp("term.txswap", c)
 	if tx := c.tx.Swap(chan txMsg(nil)); tx != nil && tx != chan txMsg(nil) {
 		close(tx.(chan txMsg))
 	}
+	vp("term.sockclose", c)
 	return c.stream.Close() // Close the connection
 }
 
@@ -128,7 +132,10 @@ func (c *conn) checkAvailable(ctx context.Context) error {
 func (c *conn) readloop() {
 	// defer println("Exittig readloop")
 	defer close(c.rx)
+	defer vp("rl.exit", c)
+	vp("rl.enter", c)
 	for !c.closed.Load() {
+		vp("rl.recv", c)
 		msg := recvMsg{}
 		resp := rxMsg{}
 		if err := c.stream.Recv(&msg); err != nil {
@@ -147,6 +154,7 @@ func (c *conn) readloop() {
 		}
 		resp.msg = m
 
+		vp("rl.offer", c)
 		select {
 		case c.rx <- resp:
 		case <-c.ctx.Done():
@@ -160,18 +168,23 @@ func (c *conn) readloop() {
 // The loop exits if the connection is closed, the context is done, or the transmission channel is closed.
 func (c *conn) writeloop() {
 	// defer println("Exittig writeloop")
+	defer vp("wl.exit", c)
+	vp("wl.enter", c)
 	tx := c.tx.Load().(chan txMsg)
 	for !c.closed.Load() {
+		vp("wl.select", c)
 		select {
 		case req, ok := <-tx:
 			if !ok {
 				return
 			}
+			vp("wl.send", c)
 			if err := c.stream.Send(req.msg); err != nil {
 				// println("write fail:", err.Error())
 				if errors.Is(err, net.ErrClosed) {
 					err = io.ErrClosedPipe
 				}
+				vp("wl.report", c)
 				req.err <- err
 				close(req.err)
 				// Close the client
@@ -204,13 +217,17 @@ func (c *conn) writeloop() {
 // Returns:
 //   - An error if the connection is unavailable, the send operation fails, or the context is canceled.
 func (c *conn) send(ctx context.Context, msg *kmip.RequestMessage) error {
+	vp("send.avail", c)
 	if err := c.checkAvailable(ctx); err != nil {
 		return err
 	}
+	vp("send.load", c)
 	tx := c.tx.Load().(chan txMsg)
 	errCh := make(chan error)
+	vp("send.select", c)
 	select {
 	case tx <- txMsg{msg: msg, err: errCh}:
+		vp("send.wait", c)
 		select {
 		case err := <-errCh:
 			return err
@@ -244,9 +261,11 @@ func (c *conn) send(ctx context.Context, msg *kmip.RequestMessage) error {
 //   - *kmip.ResponseMessage: The received response message, or nil if an error occurred.
 //   - error: An error if the context is canceled, the connection is closed, or another issue occurs.
 func (c *conn) recv(ctx context.Context) (*kmip.ResponseMessage, error) {
+	vp("recv.avail", c)
 	if err := c.checkAvailable(ctx); err != nil {
 		return nil, err
 	}
+	vp("recv.select", c)
 	select {
 	case resp, ok := <-c.rx:
 		if !ok {
@@ -271,5 +290,6 @@ func (c *conn) roundtrip(ctx context.Context, msg *kmip.RequestMessage) (*kmip.R
 	if err := c.send(ctx, msg); err != nil {
 		return nil, err
 	}
+	vp("rt.between", c)
 	return c.recv(ctx)
 }
